@@ -138,6 +138,7 @@ class InspectionStationDrv(Drv):
 
 
 class BalkingQueueDrv(Drv):
+    contention = True
     """BalkingQueue policy (threshold 1) in front of a capacity-1 Server."""
     family = "industrial"
     covers = ("BalkingQueue", "Server")
@@ -191,6 +192,7 @@ class PerishableInventoryDrv(Drv):
 
 
 class PooledCycleResourceDrv(Drv):
+    contention = True
     family = "industrial"
     covers = ("PooledCycleResource",)
     ops = ("car",)
@@ -204,6 +206,7 @@ class PooledCycleResourceDrv(Drv):
 
 
 class PreemptibleResourceDrv(Drv):
+    contention = True
     """Capacity 1; 'urgent' (priority 0) preempts a 'routine' (priority 5) holder, which notices via on_preempt."""
     family = "industrial"
     covers = ("PreemptibleResource",)
@@ -242,6 +245,7 @@ class _Teller(RenegingQueuedResource):
 
 
 class RenegingQueuedResourceDrv(Drv):
+    contention = True
     family = "industrial"
     covers = ("RenegingQueuedResource",)
     ops = ("customer", "impatient")
